@@ -129,7 +129,7 @@ func Gen(t *rapid.T) *Case {
 	// and later removals act on a long list
 	if rapid.IntRange(0, 4).Draw(t, "crowd") == 0 {
 		ct := rapid.IntRange(0, nt-1).Draw(t, "crowdType")
-		n := rapid.SampledFrom([]int{9, 16, 17, 33, 40}).Draw(t, "crowdSize")
+		n := rapid.SampledFrom([]int{9, 16, 17, 33, 40, 65, 72, 130}).Draw(t, "crowdSize")
 		for i := 0; i < n; i++ {
 			o := Op{K: "sub", T: ct, Slot: 2 + i%(busmodel.K-2), Ctx: i%3 == 0}
 			o.Once = rapid.IntRange(0, 5).Draw(t, "crowdOnce") == 0
